@@ -1259,7 +1259,7 @@ namespace xsimd
                     batch_type p = floor(q);
                     batch_type z = q - p;
                     auto test2 = z < batch_type(0.5);
-                    z = select(test2, z - batch_type(1.), z);
+                    z = select(test2, z, z - batch_type(1.)); // |sin(pi z)| from the representative nearest to 0 (z - 1 would cancel for small z)
                     z = q * sin(z, trigo_pi_tag());
                     return -log(constants::invpi<batch_type>() * abs(z)) - w;
                 }
@@ -1390,7 +1390,7 @@ namespace xsimd
                     batch_type p = floor(q);
                     batch_type z = q - p;
                     auto test2 = (z < batch_type(0.5));
-                    z = select(test2, z - batch_type(1.), z);
+                    z = select(test2, z, z - batch_type(1.)); // |sin(pi z)| from the representative nearest to 0 (z - 1 would cancel for small z)
                     z = q * sin(z, trigo_pi_tag());
                     z = abs(z);
                     return constants::logpi<batch_type>() - log(z) - w;
@@ -2452,7 +2452,7 @@ namespace xsimd
                 B sgngam = select(is_even(p), -B(1.), B(1.));
                 B z = a - p;
                 auto test2 = z < B(0.5);
-                z = select(test2, z - B(1.), z);
+                z = select(test2, z, z - B(1.)); // |sin(pi z)| from the representative nearest to 0 (z - 1 would cancel for small z)
                 z = a * sin(z, trigo_pi_tag());
                 z = abs(z);
                 return sgngam * constants::pi<B>() / (z * st);
